@@ -870,8 +870,10 @@ def formula_grammar(table):
         return formula
     grouped_mixture = grouped_mixture.setParseAction(convert_mixture)
 
-    mixture << (compound | grouped_mixture)
-    formula = (compound | ungrouped_mixture | grouped_mixture)
+    # Note: try mixtures before compounds, otherwise the volume unit in
+    # "5 L H2O" is looked up as an element symbol, which is an error.
+    mixture << (grouped_mixture | compound)
+    formula = (ungrouped_mixture | compound | grouped_mixture)
     grammar = Optional(formula, default=Formula()) + StringEnd()
 
     grammar.setName('Chemical Formula')
